@@ -86,7 +86,8 @@ class Hist:
         while sum(len(v) + 2 for t, v in attrs if v is not None) > 3900:
             attrs.pop()
         if with_ma if with_ma is not None else rng.random() < 0.7:
-            attrs.insert(0, (80, None))
+            # first, as newer servers send it - or last, as older ones do (chosen from the packet, not from the random stream)
+            attrs.insert(len(attrs) if (len(attrs) + fw[1] + fw[4]) % 3 == 0 else 0, (80, None))
         return R.build(code, fw[1], b"", attrs, secret if secret is not None else srv["secret"], rqauth=fw[4:20])
 
     def finish(self, **tags):
